@@ -363,6 +363,7 @@ class Facts:
         if os.environ.get('VF_NO_INLINE') != '1':
             import inline
             inline.normalise(self)
+            inline.fold_const_enums(self)
             inline.normalise_loops(self)
         if os.environ.get('VF_NO_THREAD') != '1':
             import inline
